@@ -72,6 +72,9 @@ impl<T: Step> ConstIntoIter for RangeInclusiveIterRev<T> {
 
 pub struct RangeFromIter<T> {
     start: T,
+    // whether the element after `T::MAX_VAL` was already "reached",
+    // only an attempt to yield that element is an error.
+    overflowed: bool,
 }
 impl<T: Step> ConstIntoIter for RangeFromIter<T> {
     type Kind = IsIteratorKind;
@@ -194,15 +197,16 @@ impl<T: Step> RangeFromIter<T> {
         item = T,
         iter_forward = RangeFromIter<T>,
         next(self){
-            let StepRet{next, overflowed, ..} = increment(self.start, T::MAX_VAL);
+            debug_assert!(!self.overflowed);
 
-            debug_assert!(!overflowed);
+            let StepRet{next, overflowed, ..} = increment(self.start, T::MAX_VAL);
 
             let ret = self.start;
             self.start = next;
+            self.overflowed = overflowed;
             Some((ret, self))
         },
-        fields = {start},
+        fields = {start, overflowed},
     }
 }
 
@@ -233,6 +237,7 @@ macro_rules! ii_wrapper_range_impls {
                 let range = ManuallyDrop::into_inner(self.iter);
                 RangeFromIter {
                     start: range.start,
+                    overflowed: false,
                 }
             }
         }
